@@ -150,7 +150,7 @@ def r2_ack_delimiters(ctx):
 
 
 def r3_shared_with_c01(ctx):
-    for fn in (c01.r3_tokenizer_exits, c01.r4_delimiter_provenance, c01.r5_strip_set, c01.r6_isa_not_subsplit):
+    for fn in (c01.r3_tokenizer_exits, c01.r4_delimiter_provenance, c01.r5_strip_set, c01.r6_isa_not_subsplit, c01.r11_reader_iteration):
         for o in fn(ctx):
             yield o
 
@@ -301,6 +301,69 @@ def r8_no_state_between_documents(ctx):
     for o in c15.validator_keeps_no_state(ctx):
         yield o
 
+def r9_formatting_is_the_same_for_every_delimiter(ctx):
+    """the acknowledgement body and every re-written segment are produced by Segment.format / Composite.format with the
+    delimiters chosen for the output: the text must be id, separator, elements, terminator whichever characters were
+    chosen - also characters that mean something to a string template (% { } \\ $).  Decided by constant propagation
+    through the two formatters for several such choices."""
+    from ..absint import run_function, helper_oracles, NotClosedTest
+    hf = helper_oracles(ctx, 'segment')
+    fn = ctx.func('segment', 'Segment.format')
+    fc = ctx.func('segment', 'Composite.format')
+
+    class _Comp(object):
+        _sa_model = True
+
+        def __init__(self, v):
+            self.v = v
+
+        def format(self, st=None):
+            return self.v + st + 'w'
+
+        def is_empty(self):
+            return False
+
+    class _Ele(object):
+        _sa_model = True
+
+        def __init__(self, v):
+            self.value = v
+
+        def format(self):
+            return self.value
+
+        def get_value(self):
+            return self.value
+
+        def is_empty(self):
+            return self.value == ''
+
+        def __repr__(self):
+            return self.value
+    CHOICES = (('~', '*', ':'), ('%', '{', '}'), ('{', '%', '\\'), ('}', '\\', '%'), ('$', '}', '{'), ('\\', '$', '%'), ('%', '%', '%'))
+    bad = []
+    badc = []
+    for st, et, ct in CHOICES:
+        own = {'self.seg_id': 'ID', 'self.elements': (_Comp('a'), _Comp('b')), 'self.seg_term': '!', 'self.ele_term': '|', 'self.subele_term': '>'}
+        want = 'ID' + et + 'a' + ct + 'w' + et + 'b' + ct + 'w' + st
+        try:
+            got = run_function(ctx.cfg(fn), fn, [None, st, et, ct], dict(hf, **{'Element.__repr__': lambda x: x.value}), env=own)
+        except (NotClosedTest, A.NotClosed) as e:
+            raise AnalysisError('Segment.format cannot be decided for the delimiters %r: %s' % ((st, et, ct), e))
+        if got != want:
+            bad.append('with terminator %r, separator %r, component separator %r a two-element segment is written as %r, expected %r' % (st, et, ct, got, want))
+        cown = {'self.elements': (_Ele('a'), _Ele('b'), _Ele('')), 'self.subele_term': '>'}
+        try:
+            gotc = run_function(ctx.cfg(fc), fc, [None, ct], dict(hf, **{'Element.__repr__': lambda x: x.value}), env=cown)
+        except (NotClosedTest, A.NotClosed) as e:
+            raise AnalysisError('Composite.format cannot be decided for the separator %r: %s' % (ct, e))
+        if gotc != 'a' + ct + 'b':
+            badc.append('with component separator %r the components a, b are written as %r' % (ct, gotc))
+    yield Ob('segment:Segment.format writes the same layout for every choice of delimiters', not bad, ctx.floc(fn),
+             '' if not bad else bad[0] + ': the output depends on which characters were chosen')
+    yield Ob('segment:Composite.format writes the same layout for every choice of separator', not badc, ctx.floc(fc),
+             '' if not badc else badc[0])
+
 
 RULES = [
     Rule('C12.R1', 'no literal delimiter on the input path beyond the enumerated, re-verified exemptions', r1_literal_delimiters, floor=3),
@@ -309,6 +372,7 @@ RULES = [
     Rule('C12.R4', 'validation never inspects re-formatted text', r4_parsed_values_only, floor=1),
     Rule('C12.R7', 'Composite.__init__ splits exactly at the separator given, for every separator and text shape (constant propagation)', r7_split_at_the_declared_separator, floor=1),
     Rule('C12.R8', 'shared with C15.R9/C18.R2: the validating modules keep no module/class-level state and cache nothing across calls', r8_no_state_between_documents, floor=8),
+    Rule('C12.R9', 'Segment.format / Composite.format give the same layout for every choice of delimiters, template characters included (constant propagation)', r9_formatting_is_the_same_for_every_delimiter, floor=2),
     Rule('C12.R6', 'shared with C13.R1: the character-set recognisers accept every member of their set (any may be a separator, checked as ISA16)', r6_charset_admits_every_delimiter_choice, floor=15),
     Rule('C12.R5', 'no delimiter attribute of a Segment that the reader leaves at its literal default is read on the input path', r5_defaulted_delimiters_not_read, floor=1),
 ]
